@@ -60,7 +60,10 @@ WIDE = [atom("$x", "rec.x"), atom("rec.y"), atom("$z", "rec.z"), atom("$l", "rec
         atom("[]"), atom("[1, 'a']"), atom("[$x, 2]", "[rec.x, 2]"), atom("()", "[]"),
         atom("(1, 'a')", "[1, 'a']"), atom("(3,)", "[3]"), atom("[[1], []]"),
         atom("f(1)"), atom("f()"), atom("f($x, k=2)", "f(rec.x, k=2)"), atom("user.m(1, 'a')"),
-        atom("f(1).k"), atom("f(a=1, **d)"), atom("g([1, 2], 2)")]
+        atom("f(1).k"), atom("f(a=1, **d)"), atom("g([1, 2], 2)"),
+        # literal non-ASCII text (1-, 2-, 3- and 4-byte UTF-8, i.e. byte, character and UTF-16
+        # offsets all differ after it) ahead of a $ reference on the same line
+        atom("'\u00e9'"), atom("'Jos\u00e9 \u65e5\u672c'"), atom("'\U0001f600'"), atom("user.N\u00f6m")]
 
 
 def paren(op, l, r):
